@@ -49,15 +49,16 @@ Fixpoint execute_ast (cfg : config F) (vs : vars F) (a : ast F) : res (ires * va
         end
       end
     end
-  | AAssignment name e =>
+  | AAssignment name toks e =>
     do x <- execute_ast cfg vs e;
     match x with
     | (IErr m, vs1) => Ok (IErr m, vs1)
     | (IOk v, vs1) =>
-      (* *variable.data.borrow_mut() = computed: the variable was registered by the parser *)
+      (* *variable.data.borrow_mut() = computed; session.add_variable(variable): an existing
+         variable keeps its name tokens, a new one is registered now *)
       let vs2 := match assoc name vs1 with
                  | Some vi => assoc_insert name {| v_tokens := v_tokens vi; v_data := v |} vs1
-                 | None => vs1 end in
+                 | None => assoc_insert name {| v_tokens := toks; v_data := v |} vs1 end in
       Ok (IOk v, vs2)
     end
   | AVariable name =>
